@@ -332,18 +332,17 @@ Definition to_int_loop (v : val) : intres :=
   | _ => ITypeErr
   end.
 
-(** RangeLiteral._make_range: ValueError -> 0; TypeError escapes (outside). *)
+(** RangeLiteral._make_range: ValueError, TypeError and OverflowError -> 0. *)
 Definition to_int_range (v : val) : option Z :=
   match v with
   | VInt z => Some z
   | VBool b => Some (if b then 1 else 0)%Z
-  | VUndef => Some 0%Z
   | VStr s =>
       match int_of_str s with
       | Some z => Some z
       | None => if not_a_number s then Some 0%Z else None
       end
-  | _ => None
+  | _ => Some 0%Z          (* ValueError / TypeError -> 0 *)
   end.
 
 Definition cmp_vals (op : cmpop) (a b : val) : eres :=
@@ -378,135 +377,142 @@ Definition cmp_vals (op : cmpop) (a b : val) : eres :=
       | Some (Some r) => EOk (VBool r) | Some None => EErr LiquidTypeError | None => EUnm end
   end.
 
-Fixpoint eval (fuel : nat) (c : ctx) (e : expr) {struct fuel} : eres :=
-  match fuel with
-  | O => EFuel
-  | S f =>
-      let eval_list := fix el (l : list expr) : eres + list val :=
-        match l with
-        | [] => inr []
-        | x :: l' =>
-            match eval f c x with
-            | EOk v => match el l' with inr vs => inr (v :: vs) | inl r => inl r end
-            | r => inl r
-            end
-        end in
-      match e with
-      | ELit v => EOk v
-      | ERange lo hi =>
-          match eval f c lo with
-          | EOk a =>
-              match eval f c hi with
-              | EOk b =>
-                  match to_int_range a, to_int_range b with
-                  | Some x, Some y => if (y <? x)%Z then EOk (VRange 0 (-1)) else EOk (VRange x y)
-                  | _, _ => EUnm
-                  end
-              | r => r
+(** RenderContext.get: walk the segments with get_item; a miss anywhere makes
+    the whole path undefined. *)
+Fixpoint walk (obj : val) (keys : list val) : eres :=
+  match keys with
+  | [] => EOk obj
+  | k :: keys' =>
+      match k with
+      | VStr _ | VInt _ | VNil | VBool _ | VList _ | VDict _ | VRange _ _ =>
+          match get_item obj k with
+          | GOk v => walk v keys'
+          | GMiss => EOk VUndef
+          | GUnmodelled => EUnm
+          end
+      | VUndef =>
+          (* hasattr(key, "__liquid__"): the key becomes None *)
+          match get_item obj VNil with
+          | GOk v => walk v keys'
+          | GMiss => EOk VUndef
+          | GUnmodelled => EUnm
+          end
+      | _ => EUnm
+      end
+  end.
+
+(** One step of expression evaluation, parameterised by the recursive call. *)
+Section EvalStep.
+Variable ev : ctx -> expr -> eres.
+
+Fixpoint eval_list (c : ctx) (l : list expr) : eres + list val :=
+  match l with
+  | [] => inr []
+  | x :: l' =>
+      match ev c x with
+      | EOk v => match eval_list c l' with inr vs => inr (v :: vs) | inl r => inl r end
+      | r => inl r
+      end
+  end.
+
+(** segments that are nested paths are evaluated first, left to right *)
+Fixpoint eval_segs (c : ctx) (l : list seg) : eres + list val :=
+  match l with
+  | [] => inr []
+  | s :: l' =>
+      let r := match s with
+               | SKey k => EOk (VStr k)
+               | SIdx i => EOk (VInt i)
+               | SExpr e' => ev c e'
+               end in
+      match r with
+      | EOk v => match eval_segs c l' with inr vs => inr (v :: vs) | inl r' => inl r' end
+      | r' => inl r'
+      end
+  end.
+
+Definition eval_step (c : ctx) (e : expr) : eres :=
+  match e with
+  | ELit v => EOk v
+  | ERange lo hi =>
+      match ev c lo with
+      | EOk a =>
+          match ev c hi with
+          | EOk b =>
+              match to_int_range a, to_int_range b with
+              | Some x, Some y => if (y <? x)%Z then EOk (VRange 0 (-1)) else EOk (VRange x y)
+              | _, _ => EUnm
               end
           | r => r
           end
-      | EArray items =>
-          match eval_list items with inr vs => EOk (VList vs) | inl r => r end
-      | EPath root segs =>
-          (* segments that are nested paths are evaluated first, left to right *)
-          let eval_segs := fix es (l : list seg) : eres + list val :=
-            match l with
-            | [] => inr []
-            | s :: l' =>
-                let r := match s with
-                         | SKey k => EOk (VStr k)
-                         | SIdx i => EOk (VInt i)
-                         | SExpr e' => eval f c e'
-                         end in
-                match r with
-                | EOk v => match es l' with inr vs => inr (v :: vs) | inl r' => inl r' end
-                | r' => inl r'
-                end
-            end in
-          match eval_segs segs with
-          | inl r => r
-          | inr keys =>
-              match lookup c root with
-              | None => EOk VUndef
-              | Some obj =>
-                  (fix walk (obj : val) (keys : list val) : eres :=
-                     match keys with
-                     | [] => EOk obj
-                     | k :: keys' =>
-                         match k with
-                         | VStr _ | VInt _ | VNil =>
-                             match get_item obj k with
-                             | GOk v => walk v keys'
-                             | GMiss => EOk VUndef
-                             | GUnmodelled => EUnm
-                             end
-                         | VUndef =>
-                             (* hasattr(key, "__liquid__"): the key becomes None *)
-                             match get_item obj VNil with
-                             | GOk v => walk v keys'
-                             | GMiss => EOk VUndef
-                             | GUnmodelled => EUnm
-                             end
-                         | VBool _ | VList _ | VDict _ | VRange _ _ =>
-                             match get_item obj k with
-                             | GOk v => walk v keys'
-                             | GMiss => EOk VUndef
-                             | GUnmodelled => EUnm
-                             end
-                         | _ => EUnm
-                         end
-                     end) obj keys
-              end
+      | r => r
+      end
+  | EArray items =>
+      match eval_list c items with inr vs => EOk (VList vs) | inl r => r end
+  | EPath root segs =>
+      match eval_segs c segs with
+      | inl r => r
+      | inr keys =>
+          match lookup c root with
+          | None => EOk VUndef
+          | Some obj => walk obj keys
           end
-      | ENot a =>
-          match eval f c a with EOk v => EOk (VBool (negb (is_truthy v))) | r => r end
-      | EAnd a b =>
-          match eval f c a with
-          | EOk v =>
-              if is_truthy v then
-                match eval f c b with EOk w => EOk (VBool (is_truthy w)) | r => r end
-              else EOk (VBool false)
+      end
+  | ENot a =>
+      match ev c a with EOk v => EOk (VBool (negb (is_truthy v))) | r => r end
+  | EAnd a b =>
+      match ev c a with
+      | EOk v =>
+          if is_truthy v then
+            match ev c b with EOk w => EOk (VBool (is_truthy w)) | r => r end
+          else EOk (VBool false)
+      | r => r
+      end
+  | EOr a b =>
+      match ev c a with
+      | EOk v =>
+          if is_truthy v then EOk (VBool true)
+          else match ev c b with EOk w => EOk (VBool (is_truthy w)) | r => r end
+      | r => r
+      end
+  | ECmp op a b =>
+      (* `in` evaluates its right operand first *)
+      match op with
+      | OIn =>
+          match ev c b with
+          | EOk y => match ev c a with EOk x => cmp_vals op x y | r => r end
           | r => r
           end
-      | EOr a b =>
-          match eval f c a with
-          | EOk v =>
-              if is_truthy v then EOk (VBool true)
-              else match eval f c b with EOk w => EOk (VBool (is_truthy w)) | r => r end
-          | r => r
-          end
-      | ECmp op a b =>
-          (* `in` evaluates its right operand first *)
-          match op with
-          | OIn =>
-              match eval f c b with
-              | EOk y => match eval f c a with EOk x => cmp_vals op x y | r => r end
-              | r => r
-              end
-          | _ =>
-              match eval f c a with
-              | EOk x => match eval f c b with EOk y => cmp_vals op x y | r => r end
-              | r => r
-              end
-          end
-      | EFilter a fn args =>
-          match eval f c a with
-          | EOk v =>
-              match eval_list args with
-              | inr vs => apply_filter fn v vs
-              | inl r => r
-              end
-          | r => r
-          end
-      | ETernary cond a alt =>
-          match eval f c cond with
-          | EOk cv =>
-              if is_truthy cv then eval f c a
-              else match alt with Some b => eval f c b | None => EOk VNil end
+      | _ =>
+          match ev c a with
+          | EOk x => match ev c b with EOk y => cmp_vals op x y | r => r end
           | r => r
           end
       end
+  | EFilter a fn args =>
+      match ev c a with
+      | EOk v =>
+          match eval_list c args with
+          | inr vs => apply_filter fn v vs
+          | inl r => r
+          end
+      | r => r
+      end
+  | ETernary cond a alt =>
+      match ev c cond with
+      | EOk cv =>
+          if is_truthy cv then ev c a
+          else match alt with Some b => ev c b | None => EOk VNil end
+      | r => r
+      end
+  end.
+
+End EvalStep.
+
+Fixpoint eval (fuel : nat) (c : ctx) (e : expr) {struct fuel} : eres :=
+  match fuel with
+  | O => EFuel
+  | S f => eval_step (eval f) c e
   end.
 
 (** * Loop expression: _to_iter and _slice *)
@@ -720,7 +726,10 @@ Definition is_neg (o : option Z) : bool := match o with Some z => (z <? 0)%Z | N
 (** the loop proper, once iterable, limit and offset have been evaluated *)
 Definition for_run (x key : str) (reversed : bool) (body : list node) (els : option (list node))
   (items0 : list val) (limit offset : option Z) (is_cont : bool) (c : ctx) (b : buf) : rstate :=
-  if is_neg limit || is_neg offset then mk SUnmodelled c b else
+  (* a negative limit selects nothing, a negative offset skips nothing and an
+     offset beyond the end skips everything *)
+  let limit := option_map (Z.max 0) limit in
+  let offset := option_map (fun z => Z.min (Z.max z 0) (Z.of_nat (length items0))) offset in
   let prev := match assoc key (stopindex c) with Some z => z | None => 0%Z end in
   let sl := loop_slice items0 limit offset is_cont prev reversed in
   let items := fst (fst sl) in
